@@ -96,6 +96,8 @@ pub struct LspWorkload {
     pub bursts: Vec<Vec<Msg>>,
     pub io_seed: u64,
     pub short_io: bool,
+    /// how often (of 256) a tokio lock acquisition of cajun yields first (tokio's cooperative budget)
+    pub coop: u32,
     pub scheduler: SchedulerChoice,
 }
 
@@ -107,6 +109,7 @@ impl LspWorkload {
             "bursts": self.bursts.iter().map(|b| b.iter().map(Msg::to_json).collect::<Vec<_>>()).collect::<Vec<_>>(),
             "io_seed": self.io_seed.to_string(),
             "short_io": self.short_io,
+            "coop": self.coop,
             "scheduler": self.scheduler.to_json(),
         })
     }
@@ -120,6 +123,7 @@ impl LspWorkload {
                 .collect::<Option<Vec<_>>>()?,
             io_seed: value["io_seed"].as_str()?.parse().ok()?,
             short_io: value["short_io"].as_bool()?,
+            coop: value["coop"].as_u64().unwrap_or(0) as u32,
             scheduler: SchedulerChoice::from_json(&value["scheduler"])?,
         })
     }
@@ -148,6 +152,11 @@ impl LspWorkload {
         if self.short_io {
             let mut candidate = self.clone();
             candidate.short_io = false;
+            out.push(candidate);
+        }
+        if self.coop > 0 {
+            let mut candidate = self.clone();
+            candidate.coop = 0;
             out.push(candidate);
         }
         out
@@ -304,7 +313,9 @@ pub fn generate(seed: u64, thorough: bool) -> GeneratedLsp {
     } else {
         SchedulerChoice::Random { seed: mix(seed, 31, 2) }
     };
-    let workload = LspWorkload { disk, bursts, io_seed: mix(seed, 31, 3), short_io: rng.chance(1, 3), scheduler };
+    let short_io = rng.chance(1, 3);
+    let coop = *rng.pick(&[0, 0, 8, 32, 96]);
+    let workload = LspWorkload { disk, bursts, io_seed: mix(seed, 31, 3), short_io, coop, scheduler };
     debug_assert!(workload.well_formed());
     GeneratedLsp { workload, schedules: if thorough { 3 } else { 2 } }
 }
@@ -353,6 +364,61 @@ fn frame(value: &Value) -> Vec<u8> {
     let mut bytes = format!("Content-Length: {}\r\n\r\n", body.len()).into_bytes();
     bytes.extend(body);
     bytes
+}
+
+// ------------------------------------------------------------------ the cooperative-yield seam (hook H4)
+// tokio's cooperative budget, as the server would meet it inside a runtime: each poll of the
+// top-level task may run out of budget at some resource operation; that operation and EVERY
+// later one in the same poll return `Pending` once (self-woken), the next poll starts with a
+// fresh budget.  The simulator decides at which acquisition the budget runs out.
+struct Coop {
+    rng: Rng,
+    rate: u32,
+    fired: u64,
+    poll_epoch: u64,
+    exhausted_in: Option<u64>,
+}
+
+static COOP: StdMutex<Option<Coop>> = StdMutex::new(None);
+
+/// Registered with `cajun::verif::set_cooperative_yield`.
+pub fn cooperative_yield() -> bool {
+    let mut guard = COOP.lock().unwrap();
+    match guard.as_mut() {
+        | Some(coop) if coop.rate > 0 => {
+            if coop.exhausted_in == Some(coop.poll_epoch) {
+                return true;
+            }
+            let fire = (coop.rng.below(256) as u32) < coop.rate;
+            if fire {
+                coop.fired += 1;
+                coop.exhausted_in = Some(coop.poll_epoch);
+            }
+            fire
+        }
+        | _ => false,
+    }
+}
+
+fn coop_arm(seed: u64, rate: u32) {
+    *COOP.lock().unwrap() = Some(Coop { rng: Rng::new(mix(seed, 3, 0)), rate, fired: 0, poll_epoch: 0, exhausted_in: None });
+}
+
+fn coop_disarm() -> u64 {
+    COOP.lock().unwrap().take().map(|coop| coop.fired).unwrap_or(0)
+}
+
+/// Counts the polls of the top-level (server) future: one poll = one budget.
+struct TopLevel<F>(Pin<Box<F>>);
+
+impl<F: std::future::Future> std::future::Future for TopLevel<F> {
+    type Output = F::Output;
+    fn poll(mut self: Pin<&mut Self>, cx: &mut Context<'_>) -> Poll<F::Output> {
+        if let Some(coop) = COOP.lock().unwrap().as_mut() {
+            coop.poll_epoch += 1;
+        }
+        self.0.as_mut().poll(cx)
+    }
 }
 
 // ------------------------------------------------------------------ the transport seam
@@ -468,10 +534,11 @@ pub struct Served {
     pub release_points: Vec<usize>,
     pub short_reads: u64,
     pub short_writes: u64,
+    pub cooperative_yields: u64,
 }
 
 /// Run one real server over the script; must be called inside a shuttle execution.
-pub fn serve(world: &Path, bursts: &[Vec<Msg>], io_seed: u64, short_io: bool) -> Served {
+pub fn serve(world: &Path, bursts: &[Vec<Msg>], io_seed: u64, short_io: bool, coop: u32) -> Served {
     let mut id = 0i64;
     let mut queue = VecDeque::new();
     // handshake: `initialize` (one response), then `initialized` (one logMessage)
@@ -499,9 +566,12 @@ pub fn serve(world: &Path, bursts: &[Vec<Msg>], io_seed: u64, short_io: bool) ->
     };
     let writer = FrameCollector { wire: Arc::clone(&shared), rng: Rng::new(mix(io_seed, 2, 0)), short: short_io };
     let (service, socket) = tower_lsp::LspService::build(cajun::Cajun::new).finish();
-    shuttle::future::block_on(tower_lsp::Server::new(reader, writer, socket).serve(service));
+    coop_arm(io_seed, coop);
+    shuttle::future::block_on(TopLevel(Box::pin(tower_lsp::Server::new(reader, writer, socket).serve(service))));
+    let cooperative_yields = coop_disarm();
     let mut wire = shared.lock().unwrap();
     Served {
+        cooperative_yields,
         frames: std::mem::take(&mut wire.frames),
         release_points: std::mem::take(&mut wire.release_points),
         short_reads: wire.short_reads,
@@ -564,7 +634,7 @@ impl<'a> Reference<'a> {
             | _ => unreachable!(),
         }
         self.runs += 1;
-        let served = serve(self.world, &bursts, 0, false);
+        let served = serve(self.world, &bursts, 0, false, 0);
         let answer = match ask {
             | Ask::Publish => served
                 .frames
@@ -594,7 +664,7 @@ impl<'a> Reference<'a> {
         }
         std::fs::write(self.world.join(DOCS[3]), text).expect("write lex.zy");
         self.runs += 1;
-        let served = serve(self.world, &[vec![Msg::Tokens { doc: 3 }]], 0, false);
+        let served = serve(self.world, &[vec![Msg::Tokens { doc: 3 }]], 0, false, 0);
         let answer = served
             .frames
             .iter()
@@ -664,6 +734,12 @@ pub fn judge(world: &Path, workload: &LspWorkload, served: &Served) -> Judgement
         let mut cursor = 2usize; // frames consumed so far (bursts are answered before the next is released)
         let mut id = 1i64;
         let mut state: Combination = [None, None, None];
+        // Every state the server's documents may really be in.  Without cooperative yields the
+        // handlers take the session lock in arrival order and this is just `state`.  With them
+        // (hook H4) the edits of ONE racing burst may be applied in any order (tower-lsp runs
+        // notifications concurrently; FuturesUnordered may poll a later handler first after an
+        // early return), and C17 says nothing about the order in which racing edits land.
+        let mut alternatives: Vec<Combination> = vec![state.clone()];
         let per_doc: Vec<Vec<Option<String>>> = (0..3).map(|doc| admissible_texts(workload, doc)).collect();
         for (b, burst) in workload.bursts.iter().enumerate() {
             let answers = &frames[cursor.min(frames.len())..(cursor + burst.len()).min(frames.len())];
@@ -679,9 +755,46 @@ pub fn judge(world: &Path, workload: &LspWorkload, served: &Served) -> Judgement
                 bump(&mut probes, "bursts_with_racing_messages");
             }
             let before = state.clone();
+            let relaxed = workload.coop > 0 && !quiescent;
+            if relaxed {
+                let mut next: Vec<Combination> = Vec::new();
+                for alternative in &alternatives {
+                    let options: Vec<Vec<Option<String>>> = (0..3)
+                        .map(|doc| {
+                            let mut effects: Vec<Option<String>> = Vec::new();
+                            for message in burst.iter().filter(|m| m.doc() == doc) {
+                                let mut probe: Combination = [None, None, None];
+                                probe[doc] = Some("\u{0}unchanged".to_string());
+                                apply(&mut probe, message);
+                                if probe[doc].as_deref() != Some("\u{0}unchanged") && !effects.contains(&probe[doc]) {
+                                    effects.push(probe[doc].clone());
+                                }
+                            }
+                            if effects.is_empty() { vec![alternative[doc].clone()] } else { effects }
+                        })
+                        .collect();
+                    for first in &options[0] {
+                        for second in &options[1] {
+                            for third in &options[2] {
+                                let combination: Combination = [first.clone(), second.clone(), third.clone()];
+                                if !next.contains(&combination) {
+                                    next.push(combination);
+                                }
+                            }
+                        }
+                    }
+                }
+                alternatives = next;
+            }
             let mut used = vec![false; answers.len()];
             for message in burst {
                 apply(&mut state, message);
+                if !relaxed {
+                    for alternative in alternatives.iter_mut() {
+                        apply(alternative, message);
+                    }
+                    alternatives.dedup();
+                }
                 let doc = message.doc();
                 let target_uri = uri(world, doc);
                 // find this message's answer frame
@@ -736,7 +849,17 @@ pub fn judge(world: &Path, workload: &LspWorkload, served: &Served) -> Judgement
                     bump(&mut probes, if message.is_request() { "request_answers_non_null" } else { "publishes_non_empty" });
                 }
                 let exact = reference.answer(&state, doc, &ask, Some(message));
-                let exact_ok = observed == exact;
+                let exact_ok = observed == exact
+                    || (quiescent
+                        && alternatives.len() > 1
+                        && alternatives.iter().any(|alternative| {
+                            // (the server may hold the document closed although the script says open)
+                            let mut alternative = alternative.clone();
+                            if matches!(ask, Ask::Publish) && alternative[doc].is_none() {
+                                alternative[doc] = Some(workload.disk[doc].clone());
+                            }
+                            reference.answer(&alternative, doc, &ask, Some(message)) == observed
+                        }));
                 outcome.push_str(if exact_ok { "=" } else if observed == json!([]) || observed.is_null() { "0" } else { "~" });
                 if exact_ok {
                     bump(&mut probes, if quiescent { "quiescent_answers_exact" } else { "racing_answers_equal_script_order" });
@@ -746,7 +869,10 @@ pub fn judge(world: &Path, workload: &LspWorkload, served: &Served) -> Judgement
                 // (a `save` publishes without a version: next to other saves or a close of the same
                 // document its publication cannot be told from theirs, so only a lone save is pinned)
                 let pinned: Option<Option<String>> = match message {
-                    | Msg::Open { text, .. } | Msg::Change { text, .. } => Some(Some(text.clone())),
+                    // (with cooperative yields the edits of one racing burst land in any order, and a
+                    // handler that yields between installing its text and reading the revision
+                    // analyses - and labels with its own version - whatever landed last)
+                    | Msg::Open { text, .. } | Msg::Change { text, .. } if !relaxed => Some(Some(text.clone())),
                     | Msg::Save { text: Some(text), .. } if quiescent => Some(Some(text.clone())),
                     | _ => None,
                 };
@@ -781,7 +907,11 @@ pub fn judge(world: &Path, workload: &LspWorkload, served: &Served) -> Judgement
                     | Some(text) => vec![text.clone()],
                     // sent alone: the document's own text is the current one (a cached analysis is
                     // only reused while the document's revision is unchanged)
-                    | None if quiescent => vec![state[doc].clone()],
+                    | None if quiescent => {
+                        let mut texts: Vec<Option<String>> = alternatives.iter().map(|a| a[doc].clone()).collect();
+                        texts.dedup();
+                        texts
+                    }
                     | None => per_doc[doc].clone(),
                 };
                 let others: Vec<usize> = (0..3).filter(|d| *d != doc).collect();
@@ -799,7 +929,14 @@ pub fn judge(world: &Path, workload: &LspWorkload, served: &Served) -> Judgement
                 candidates.insert(0, before.clone());
                 let explained = candidates.iter().any(|combination| {
                     if matches!(ask, Ask::Publish) && combination[doc].is_none() {
-                        return false;
+                        if workload.coop == 0 {
+                            return false;
+                        }
+                        // a racing close may land between this handler's edit and its analysis: it
+                        // then analyses - and publishes - the disk text
+                        let mut on_disk = combination.clone();
+                        on_disk[doc] = Some(workload.disk[doc].clone());
+                        return reference.answer(&on_disk, doc, &ask, Some(message)) == observed;
                     }
                     reference.answer(combination, doc, &ask, Some(message)) == observed
                 });
@@ -836,6 +973,7 @@ pub fn judge(world: &Path, workload: &LspWorkload, served: &Served) -> Judgement
     *probes.entry("reference_server_runs".into()).or_default() += reference.runs;
     *probes.entry("short_reads".into()).or_default() += served.short_reads;
     *probes.entry("short_writes".into()).or_default() += served.short_writes;
+    *probes.entry("cooperative_budget_exhaustions".into()).or_default() += served.cooperative_yields;
     Judgement { violation, probes, outcome }
 }
 
